@@ -147,6 +147,53 @@ where
 		}
 		None => flag(out, name, "clone", false, "panicked".into()),
 	}
+	// `clone_from` (the other entry point of Clone) into instances with a different past: plain instance and both wrappers
+	match guard(|| {
+		let k = rng.below(xs.len() as u64) as usize;
+		let mut a = mk().ok().unwrap();
+		for x in &xs[..k] {
+			a.next(x);
+		}
+		let mut b = mk().ok().unwrap();
+		for x in xs.iter().rev() {
+			b.next(x);
+		}
+		b.clone_from(&a);
+		let plain: Vec<String> = xs[k..].iter().map(|x| b.next(x).toks()).collect();
+		let mut ha = M::with_history(params.clone(), &xs[0]).ok().unwrap();
+		for x in &xs[..k] {
+			ha.next(x);
+		}
+		let mut hb = M::with_history(params.clone(), &xs[0]).ok().unwrap();
+		for x in xs.iter().rev() {
+			hb.next(x);
+		}
+		hb.clone_from(&ha);
+		let hist: Vec<String> = xs[k..].iter().map(|x| hb.next(x).toks()).collect();
+		let hist_len_ok = hb.iter().count() == xs.len();
+		let mut la = M::with_last_value(params.clone(), &xs[0]).ok().unwrap();
+		let mut plain2 = mk().ok().unwrap();
+		plain2.next(&xs[0]);
+		for x in &xs[..k] {
+			la.next(x);
+			plain2.next(x);
+		}
+		let mut lb = M::with_last_value(params.clone(), &xs[0]).ok().unwrap();
+		for x in xs.iter().rev() {
+			lb.next(x);
+		}
+		lb.clone_from(&la);
+		let last: Vec<String> = xs[k..].iter().map(|x| lb.next(x).toks()).collect();
+		let last_ref: Vec<String> = xs[k..].iter().map(|x| plain2.next(x).toks()).collect();
+		(k, plain, hist, hist_len_ok, last, last_ref)
+	}) {
+		Some((k, plain, hist, hist_len_ok, last, last_ref)) => {
+			flag(out, name, "clone_from_continues", plain[..] == base[k..], first_diff(&plain, &base[k..].to_vec()));
+			flag(out, name, "with_history_clone_from", hist[..] == base[k..] && hist_len_ok, first_diff(&hist, &base[k..].to_vec()));
+			flag(out, name, "with_last_value_clone_from", last == last_ref, first_diff(&last, &last_ref));
+		}
+		None => flag(out, name, "clone_from", false, "panicked".into()),
+	}
 }
 
 /// routes that need `Sequence` (implemented by the crate for ValueType and OHLCV slices only)
